@@ -10,7 +10,7 @@ from ..core import hx
 PROOF_MODULE = "Nlmodel.Proofs.C16"
 PROOF_FILES = ["Nlmodel/Proofs/C16.lean", "Nlmodel/Model/Session.lean", "Nlmodel/Model/Pipeline.lean", "Nlmodel/Model/VM.lean"]
 THEOREM_FILE = PROOF_FILES[0]
-LEVEL_TEXT = ("Partial. Lean theorems on the explicit-state model: eval(text) is exactly one line on a fresh compiler and a fresh machine, so its outcome has no input but the text; a run starts from an empty stack, no frames, no output, whatever ran before, and depends on the previous machine only through its globals and heap. What a model cannot express - thread interleavings, process-wide statics, build profiles - is decided by the correspondence: the same batch is evaluated one program per fresh process, in random orders and repeatedly in one process, concurrently from 16 threads with seeded assignment, and by a dev-profile build (overflow checks on, no optimisation) and a release build; all answers must equal, item by item, the single outcome computed by the Lean model.")
+LEVEL_TEXT = ("Partial. Lean theorems on the explicit-state model: eval(text) is exactly one line on a fresh compiler and a fresh machine, so its outcome has no input but the text; a run starts from an empty stack, no frames, no output, whatever ran before, and depends on the previous machine only through its globals and heap. What a model cannot express - thread interleavings, process-wide statics, build profiles - is decided by the correspondence: the same batch is evaluated one program per fresh process, in random orders and repeatedly in one process, concurrently from 16 threads with seeded assignment, and by a dev-profile build (overflow checks on, no optimisation) and a release build; all answers must equal, item by item, the single outcome computed by the Lean model. SESSION 7: the error TEXT (not only its kind) is compared between all runs of the implementation (harness evalm/threadsm).")
 LEVEL_NOTE = ("Trusted: Lean kernel for the logic part only. Schedules are sampled (seeded), not enumerated; a data race that does not change an outcome in the sampled runs is invisible (Miri/TSan over the corpus are too slow to register as a check).")
 TECHNIQUE = "Lean 4 proof (eval = fresh session in the explicit-state model) + four-way differential (process, order, threads, build profile)"
 RULE = ("a batch of generated programs (incl. overflow boundaries, zero divisors, heap values, printing) evaluated 4 ways; non-trivial = "
@@ -33,6 +33,15 @@ def batch(rng, tier):
         progs += ["stel lek_%d = %d; lek_%d" % (i, i + 1, i), "lek_%d" % i, "als nee { lek_%d }; 5" % i, "functie lekf_%d() { %d }; lekf_%d()" % (i, i, i),
                   "lekf_%d()" % i, "stel lekv_%d = functie(a) { a + %d }; lekv_%d(1)" % (i, i, i), "lekv_%d(2)" % i,
                   "functie gebruikt_%d() { lek_%d }; 1" % (i, i), "stel lek_%d = \"tekst\"; [lek_%d]" % (i, i)]
+    # the ERROR is part of the outcome, its text included (round 9): failing programs of every error kind with many names and
+    # values in scope (a message assembled from a hash set, a pointer, a counter or a thread-local differs between evaluations)
+    for k in range(6):
+        names = ["teller%d" % j for j in range(1, 3 + k)] + ["tellen", "teler", "waarde%d" % k]
+        decl = " ".join("stel %s = %d;" % (n, j) for j, n in enumerate(names))
+        progs += [decl + " teller", decl + " functie f(teller9, teller8) { telle }; f(1, 2)", decl + " { stel teller0 = 0; tellerr }",
+                  decl + " teller1 + \"x\"", decl + " [teller1, teller2][tellen + 9]", decl + " functie g(a) { a }; g(1, 2, 3)",
+                  decl + " int(\"%dx\")" % k, decl + " lengte(teller1)", decl + " teller1(%d)" % k, decl + " stop",
+                  decl + " [1.5, \"s\", [teller1]] < %d" % k, decl + " functie h() { h() + 1 }; h()"]
     # arithmetic that is unsigned or narrowed in the implementation (argument counts, slots, indices, lengths): the dev profile
     # has overflow checks, the release profile wraps - the outcome must not depend on it
     for np_ in range(0, 4):
@@ -93,8 +102,11 @@ def batch(rng, tier):
 def run(res, tier, rng, table_diffs=()):
     progs = batch(rng, tier)
     budget = 200000
-    reqs = ["eval %d %s" % (budget, hx(p)) for p in progs]
-    expected = core.model(reqs)
+    # the implementation answers with the error TEXT hashed in (`evalm`, `threadsm`): the same text must give the same error,
+    # message included, in every setting; the model knows kinds only, so the hash is stripped for the comparison with it
+    mreqs = ["eval %d %s" % (budget, hx(p)) for p in progs]
+    reqs = ["evalm %d %s" % (budget, hx(p)) for p in progs]
+    expected = core.model(mreqs)
     exe_rel = core.build_harness("release")
     exe_dev = core.build_harness("debug")
     ways = {}
@@ -118,12 +130,12 @@ def run(res, tier, rng, table_diffs=()):
             shuffled[k] = "DIVERGED %s <> %s" % (shuffled[k], a)
     ways["shuffled-in-process"] = shuffled
     # (c) 16 threads, seeded assignment
-    t = core.impl(["threads 16 %d %d %s" % (rng.below(2 ** 31), budget, " ".join(hx(p) for p in progs))], per_request_timeout=300)[0]
+    t = core.impl(["threadsm 16 %d %d %s" % (rng.below(2 ** 31), budget, " ".join(hx(p) for p in progs))], per_request_timeout=300)[0]
     ways["threads-16"] = t.split(" ;; ") if " ;; " in t else [t] * len(reqs)
     # (d) dev profile (no optimisation, overflow checks)
     ways["dev-build"] = core.impl(reqs, profile="debug", per_request_timeout=120)
     ways["dev-build-threads"] = (lambda s: s.split(" ;; ") if " ;; " in s else [s] * len(reqs))(
-        core.impl(["threads 16 %d %d %s" % (rng.below(2 ** 31), budget, " ".join(hx(p) for p in progs))], profile="debug", per_request_timeout=600)[0])
+        core.impl(["threadsm 16 %d %d %s" % (rng.below(2 ** 31), budget, " ".join(hx(p) for p in progs))], profile="debug", per_request_timeout=600)[0])
     reported = 0
     for k, p in enumerate(progs):
         res.seen(p)
@@ -134,7 +146,9 @@ def run(res, tier, rng, table_diffs=()):
             continue
         vals = set(answers.values())
         res.count("compared")
-        if (len(vals) != 1 or exp not in vals) and reported < 4:
+        if any(" @m=" in a for a in vals):
+            res.count("compared-error-text")
+        if (len(vals) != 1 or exp not in {a.split(" @m=")[0] for a in vals}) and reported < 4:
             reported += 1
             same_impl = len(vals) == 1
             res.violation("the same text did not evaluate to the same outcome in every setting" if not same_impl
@@ -147,13 +161,13 @@ def run(res, tier, rng, table_diffs=()):
 
 def replay(res, rp):
     p = rp["input"]
-    q = "eval 200000 " + hx(p)
+    q = "evalm 200000 " + hx(p)
     a = core.impl([q])[0]
     b = core.impl([q], profile="debug")[0]
-    c = core.impl(["threads 16 7 200000 " + " ".join([hx(p)] * 4)])[0].split(" ;; ")[0]
-    m = core.model([q])[0]
+    c = core.impl(["threadsm 16 7 200000 " + " ".join([hx(p)] * 4)])[0].split(" ;; ")[0]
+    m = core.model(["eval 200000 " + hx(p)])[0]
     print(a, "|", b, "|", c, "|", m)
-    if len({a, b, c, m}) != 1:
+    if len({a, b, c}) != 1 or a.split(" @m=")[0] != m:
         print("VIOLATION property=C16 replay=replay")
         return 1
     return 0
